@@ -106,6 +106,10 @@ class GcodeHandlers(object):
         # Compute the number of segments to produce based on the length of the arc
         arcLength = abs(angularTravel) * radius
         numSegments = int(math.ceil(arcLength / MM_PER_ARC_SEGMENT))
+        if (numSegments < 1):
+            # Zero length arc (e.g. the end point is in line with the start and center points):
+            # like Marlin, process it as a single segment to the end point
+            numSegments = 1
 
         angle = math.atan2(-j, -i)
         angularIncrement = angularTravel / numSegments
